@@ -8,6 +8,7 @@ RULE = ("seeded random validated models (all classes, integer bounds, explicit/g
         "in order, with the model's pack; real round trip compared through full structural snapshots (text form, classes, "
         "ids, bounds, generated-id flags, defaults, priorities; matrix, variables, row index, default priority vector, "
         "dtype) and through queries (evaluate on assignments; select with a recorder and an exact brute-force solver); "
+        "a second unpacking of the same string after the first unpacked object was edited in place must still equal the packed object; "
         "non-trivial = nested model or configurator polyhedron")
 ASSUMPTIONS = ["pickle / gzip / base64 round-trip (assumed, not proved)"]
 
@@ -73,6 +74,36 @@ def do_case(ctx, inp):
     g2 = pnd.ge_polyhedron_config.from_b64(g.to_b64())
     if type(g2) is not type(g) or full_poly_snap(g2) != fs:
         ctx.fail("polyhedron-round-trip-differs", {"before": fs, "after": full_poly_snap(g2)}); return
+    # every unpacking is a fresh object: editing one in place must not show in the next unpacking of the same string
+    s64 = g.to_b64()
+    q1 = pnd.ge_polyhedron_config.from_b64(s64)
+    def edit_matrix(): np.asarray(q1)[0, 0] += 7
+    def edit_dpv(): q1.default_prio_vector[:] = [0] * len(q1.default_prio_vector)
+    def edit_bounds():
+        for v in list(q1.variables)[1:2]:
+            v.bounds.lower = int(v.bounds.lower) - 5
+    for nm, f in (("matrix", edit_matrix), ("default-prio-vector", edit_dpv), ("variable-bounds", edit_bounds)):
+        try:
+            f(); ctx.tags["edited-in-place-" + nm] += 1
+        except Exception as e:
+            ctx.tags[f"in-place-edit-of-{nm}-not-possible-{type(e).__name__}"] += 1
+    q2 = pnd.ge_polyhedron_config.from_b64(s64)
+    ctx.tags["unpack-edit-unpack"] += 1
+    if full_poly_snap(q2) != fs:
+        ctx.fail("second-unpacking-of-the-same-string-differs", {"packed": fs, "second_unpacking": full_poly_snap(q2),
+                                                                 "history": "from_b64(s); edit that object in place; from_b64(s)"}); return
+    if full_poly_snap(g) != fs:
+        ctx.fail("packing-object-changed-by-editing-an-unpacked-copy", {}); return
+    p1 = pg.from_b64(s)
+    try:
+        p1.value = p1.value + 1
+        for c in p1.propositions[:1]:
+            if is_var(c): c.bounds = puan.Bounds(-9, 9)
+            else: c.sign = -c.sign
+    except Exception:
+        ctx.tags["in-place-edit-not-possible"] += 1
+    if snap(pg.from_b64(s)) != t:
+        ctx.fail("second-unpacking-of-the-same-string-differs", {"packed": t, "history": "from_b64(s); edit that object in place; from_b64(s)"}); return
     prio = inp.get("prio", {})
     for solver in (None, brute):
         r1, r2 = Recorder(solver), Recorder(solver)
